@@ -6,6 +6,13 @@ fn main() {
         eprintln!("usage: xsgv <PROPERTY> <quick|thorough> | xsgv <PROPERTY> --replay <file>");
         std::process::exit(2);
     }
+    if args[1] == "__render_c05" && args.len() == 5 {
+        use std::io::Write;
+        let t = xsgv::runner::Tapes { a: xsgv::runner::unhex(&args[2]), b: xsgv::runner::unhex(&args[3]), c: xsgv::runner::unhex(&args[4]) };
+        let out = xsgv::props::c05::render_for_subprocess(&t);
+        std::io::stdout().write_all(out.as_bytes()).unwrap();
+        return;
+    }
     let id = args[1].as_str();
     let prop = match xsgv::props::by_id(id) {
         Some(p) => p,
